@@ -331,12 +331,12 @@ func runCheck(prop, tier string, jobFilter string, workers int, seed int64) int 
 		if !r.Reached["end"] && len(r.Incon) == 0 {
 			inconclusive = append(inconclusive, r.Job.Name+": vacuous (no feasible path reaches verifReach(\"end\"))")
 		}
-		seenLbl := map[string]bool{}
+		seenLbl := map[string]int{}
 		for _, o := range r.Obligations {
 			switch o.Verdict {
 			case "violated":
-				if !seenLbl[o.Label] { // one replay per label and job
-					seenLbl[o.Label] = true
+				if seenLbl[o.Label] < 4 { // up to four counterexamples per label and job are replayed
+					seenLbl[o.Label]++
 					viols = append(viols, viol{r, o})
 				}
 			case "unknown":
@@ -348,25 +348,41 @@ func runCheck(prop, tier string, jobFilter string, workers int, seed int64) int 
 		}
 	}
 	os.MkdirAll(filepath.Join(outDir(), "replays"), 0o755)
+	confirmed := map[string]bool{}
+	nTried := map[string]int{}
+	pendingIncon := map[string]string{}
 	for _, v := range viols {
+		key := v.r.Job.Name + "|" + v.ob.Label
+		if confirmed[key] {
+			continue
+		}
 		rf := replayFile{Property: prop, Job: v.r.Job.Name, Pkg: v.r.Job.Pkg, Harness: v.r.Job.Harness, Label: v.ob.Label,
 			Grid: v.r.Job.Grid, Params: v.r.Job.Params, Inputs: modelToStrings(v.ob.Model), Pos: v.ob.Pos}
 		name := fmt.Sprintf("%s-%s-%s.json", prop, v.r.Job.Harness, sanitize(v.r.Job.Name+"-"+v.ob.Label))
+		if nTried[key] > 0 {
+			name = fmt.Sprintf("%s-%s-%s-alt%d.json", prop, v.r.Job.Harness, sanitize(v.r.Job.Name+"-"+v.ob.Label), nTried[key])
+		}
+		nTried[key]++
 		path := filepath.Join(outDir(), "replays", name)
 		b, _ := json.MarshalIndent(rf, "", " ")
 		os.WriteFile(path, b, 0o644)
 		ok, out := nativeReplay(path)
 		if ok {
+			confirmed[key] = true
+			delete(pendingIncon, key)
 			violations++
 			fmt.Printf("VIOLATION property=%s replay=%s\n", prop, path)
 			fmt.Printf("  job=%s assertion=%q at %s\n  inputs=%v\n", v.r.Job.Name, v.ob.Label, v.ob.Pos, rf.Inputs)
 			exit = 1
 		} else {
-			inconclusive = append(inconclusive, fmt.Sprintf("%s: counterexample for %q did not reproduce natively (replay-mismatch) %s", v.r.Job.Name, v.ob.Label, path))
+			pendingIncon[key] = fmt.Sprintf("%s: counterexample for %q did not reproduce natively (replay-mismatch) %s", v.r.Job.Name, v.ob.Label, path)
 			if verbose {
 				fmt.Println(out)
 			}
 		}
+	}
+	for _, msg := range pendingIncon {
+		inconclusive = append(inconclusive, msg)
 	}
 	// differential validation of the executor and its models: witness inputs of jobs that
 	// reached their end are replayed natively; the native run must not fail any assertion
